@@ -4,7 +4,7 @@ set -u
 patch=$(realpath $1); prop=$2; tier=${3:-quick}
 cd /repo || exit 2
 if ! git diff --quiet; then echo "repo dirty"; exit 2; fi
-git apply "$patch" 2>/dev/null || git apply --3way "$patch" || { echo "patch does not apply"; git checkout -- .; exit 2; }; git reset -q
+git apply "$patch" || { echo "patch does not apply"; exit 2; }
 cd /verif
 ./check "$prop" --tier "$tier" > /tmp/try_mutant.out 2>/tmp/try_mutant.err
 rc=$?
